@@ -73,7 +73,7 @@ func runC08(t *testing.T, c *choice.Stream, r *Result, opt RunOpt) {
 	for i := range ones {
 		ones[i] = 1
 	}
-	if n <= 6000 {
+	if n <= 3000 {
 		vs = append(vs, c08Variant{name: "bytewise", sizes: ones})
 	}
 	if n <= 48 || opt.Tier == "thorough" && n <= 400 {
